@@ -1,3 +1,4 @@
+from os.path import exists
 from os.path import getmtime
 
 from .util import cached_property, Source
@@ -28,6 +29,9 @@ class SourceModule(Object):
     @property
     def changed(self):
         # type: () -> bool
+        if not exists(self.filename):  # the file is gone: the project looks the name up again
+            return True
+
         return self.mtime != getmtime(self.filename)
 
     @cached_property
